@@ -118,3 +118,12 @@ Theorem C13_reader_candidates_are_the_regenerated_code : forall c s0 s1,
   gen_candidates c s0 s1 = candidates Exact c s0 s1.
 Proof. exact reader_candidates_regen. Qed.
 Print Assumptions C13_reader_candidates_are_the_regenerated_code.
+
+(* ---- T17: the sources this property rests on keep no state outside the objects the model has (no static locals
+   or mutable globals in C, no class-level / module-level containers, `global` rebinding or cache decorators in
+   Python): the list of such sites, regenerated from the sources on every run, is empty *)
+From Coq Require Import String List.
+From DRF Require Import Gen.StateSites Proofs.StateSitesProofs.
+Theorem C13_no_state_outside_the_modelled_objects : state_sites_metadata = @nil string.
+Proof. repeat split; first [exact no_state_outside_objects_metadata]. Qed.
+Print Assumptions C13_no_state_outside_the_modelled_objects.
